@@ -28,6 +28,16 @@ structure Ops (α : Type) where
   powHalf : α → α
   sq : α → α
   pi : α
+  /-- `x < float("inf")` (true for every number of an ordered field; false for `inf` and NaN doubles). -/
+  ltInf : α → Bool
+
+/-- the exceptions of the force code: `ZeroDivisionError` (`/ num_modules`, `/ k`, `/ len(net)`) and a failing
+    `assert` (a module without centre where one is required). -/
+inductive FErr | zeroDiv | assertion
+  deriving DecidableEq, Repr, Inhabited
+
+def FErr.toStr : FErr → String
+  | .zeroDiv => "err:ZeroDivisionError" | .assertion => "err:AssertionError"
 
 /-- a module as the force layout sees it: `center` (`None` allowed), `area()`, `is_fixed`, and the rest. -/
 structure Mod (α β : Type) where
@@ -77,6 +87,9 @@ abbrev Pt (α : Type) := α × α
 @[inline] def pdiv (p : Pt α) (s : α) : Pt α := (p.1 / s, p.2 / s)
 /-- `p.norm()` = `(x**2 + y**2) ** (1/2)`. -/
 @[inline] def pnorm (o : Ops α) (p : Pt α) : α := o.powHalf (o.sq p.1 + o.sq p.2)
+
+/-- `x == 0` on doubles (true for `±0.0`, false for NaN) / in a field: when Python's `/ x` raises. -/
+@[inline] def isZeroF (x : α) : Bool := decide (x ≤ zero) && decide (zero ≤ x)
 
 /-- the clamp `min(hi, max(lo, x))` of lines 123–124. -/
 @[inline] def clamp (lo hi x : α) : α := pyMin hi (pyMax lo x)
@@ -154,15 +167,26 @@ def initPos {β : Type} (inst : Inst α β) : List (Pt α) :=
     | some c => psub c (pdiv (inst.W, inst.H) two)
     | none => pzero
 
-/-- `t`, `dt`, `k` of lines 69–72. -/
+/-- `t`, `dt` of lines 69–70. -/
 def temp0 {β : Type} (inst : Inst α β) : α := pyMax inst.W inst.H * tenth
 def tempStep {β : Type} (inst : Inst α β) (maxIter : Nat) : α := temp0 inst / ((maxIter + 1 : Nat) : α)
-def springK (o : Ops α) {β : Type} (inst : Inst α β) (kappa : α) : α :=
-  kappa * o.powHalf (inst.W * inst.H / ((inst.mods.length : Nat) : α))
+
+/-- `k` of line 72; `/ num_modules` raises `ZeroDivisionError` for a netlist without modules. -/
+def springK (o : Ops α) {β : Type} (inst : Inst α β) (kappa : α) : Except FErr α :=
+  if inst.mods.length = 0 then .error .zeroDiv
+  else .ok (kappa * o.powHalf (inst.W * inst.H / ((inst.mods.length : Nat) : α)))
+
+/-- `f_att` divides by `k`: with `k == 0` (e.g. `kappa = 0`) the first attraction term raises `ZeroDivisionError`,
+    i.e. as soon as there is an iteration and a net with two pins.  (All other divisors are `max(·, 1e-6)`,
+    `max_iter + 1`, `2`, `10`: never zero.)  The exception aborts the call, so the guard is hoisted. -/
+def attractionRaises (k : α) (maxIter : Nat) (nets : List (Net α)) : Bool :=
+  isZeroF k && decide (0 < maxIter) && nets.any (fun e => decide (2 ≤ e.pins.length))
 
 /-- final positions (die-centred coordinates) after `maxIter` iterations. -/
-def frPositions (o : Ops α) {β : Type} (inst : Inst α β) (kappa : α) (maxIter : Nat) : List (Pt α) :=
-  frLoop o inst (springK o inst kappa) (tempStep inst maxIter) maxIter (temp0 inst) (initPos inst)
+def frPositions (o : Ops α) {β : Type} (inst : Inst α β) (kappa : α) (maxIter : Nat) : Except FErr (List (Pt α)) := do
+  let k ← springK o inst kappa
+  if attractionRaises k maxIter inst.nets then .error .zeroDiv
+  else pure (frLoop o inst k (tempStep inst maxIter) maxIter (temp0 inst) (initPos inst))
 
 /-- lines 140–141: write the centres back (`pos[v] + Point(W, H) / 2`); nothing else is assigned. -/
 def writeCentres {β : Type} (inst : Inst α β) (pos : List (Pt α)) : Inst α β :=
@@ -171,8 +195,9 @@ def writeCentres {β : Type} (inst : Inst α β) (pos : List (Pt α)) : Inst α 
   { inst with mods := ms }
 
 /-- `fruchterman_reingold_layout(die, kappa, max_iter=maxIter)` (no visualisation). -/
-def frLayout (o : Ops α) {β : Type} (inst : Inst α β) (kappa : α) (maxIter : Nat) : Inst α β :=
-  writeCentres inst (frPositions o inst kappa maxIter)
+def frLayout (o : Ops α) {β : Type} (inst : Inst α β) (kappa : α) (maxIter : Nat) : Except FErr (Inst α β) := do
+  let pos ← frPositions o inst kappa maxIter
+  pure (writeCentres inst pos)
 
 /-! ### cost and `force_algorithm` -/
 
@@ -188,62 +213,81 @@ def nsum (xs : List α) : α :=
   s.1 + s.2
 
 /-- `total_intersection_area`: plain `+=` over all ordered pairs of distinct modules; a missing centre is the
-    failing `assert` (`none`). -/
-def totalIntersectionArea (o : Ops α) (disc : Pt α → α → Pt α → α → α) {β : Type} (inst : Inst α β) : Option α :=
+    failing `assert`. -/
+def totalIntersectionArea (o : Ops α) (disc : Pt α → α → Pt α → α → α) {β : Type} (inst : Inst α β) : Except FErr α :=
   let n := inst.mods.length
-  (List.range n).foldl (fun acc i =>
-    (List.range n).foldl (fun acc j =>
-      if i = j then acc else
-        match acc, inst.mods[i]?, inst.mods[j]? with
-        | some a, some m1, some m2 =>
+  (List.range n).foldlM (fun acc i =>
+    (List.range n).foldlM (fun acc j =>
+      if i = j then pure acc else
+        match inst.mods[i]?, inst.mods[j]? with
+        | some m1, some m2 =>
           match m1.center, m2.center with
-          | some c1, some c2 => some (a + disc c1 (o.sqrt (m1.area / o.pi)) c2 (o.sqrt (m2.area / o.pi)))
-          | _, _ => none
-        | _, _, _ => none) acc) (some zero)
+          | some c1, some c2 => pure (acc + disc c1 (o.sqrt (m1.area / o.pi)) c2 (o.sqrt (m2.area / o.pi)))
+          | _, _ => .error .assertion
+        | _, _ => .error .assertion) acc) zero
 
-/-- `HyperEdge.wire_length`. -/
-def netWireLength (o : Ops α) {β : Type} (inst : Inst α β) (e : Net α) : Option α := do
-  let cs ← e.pins.mapM fun v => do let m ← inst.mods[v]?; m.center
-  let ip := pdiv (cs.foldl padd pzero) ((cs.length : Nat) : α)
-  let wl := cs.foldl (fun acc c => let v := psub ip c; acc + o.sqrt (v.1 * v.1 + v.2 * v.2)) zero
-  pure (wl * e.weight)
+/-- `HyperEdge.wire_length` (`/= len(self.modules)` raises for a net without pins). -/
+def netWireLength (o : Ops α) {β : Type} (inst : Inst α β) (e : Net α) : Except FErr α := do
+  let cs ← e.pins.mapM fun v => match inst.mods[v]? with
+    | some m => match m.center with
+      | some c => pure c
+      | none => .error .assertion
+    | none => .error .assertion
+  if cs.length = 0 then .error .zeroDiv
+  else
+    let ip := pdiv (cs.foldl padd pzero) ((cs.length : Nat) : α)
+    let wl := cs.foldl (fun acc c => let v := psub ip c; acc + o.sqrt (v.1 * v.1 + v.2 * v.2)) zero
+    pure (wl * e.weight)
 
 /-- `Netlist.wire_length` = `sum([e.wire_length for e in edges])`. -/
-def wireLength (o : Ops α) {β : Type} (inst : Inst α β) : Option α := do
+def wireLength (o : Ops α) {β : Type} (inst : Inst α β) : Except FErr α := do
   let ls ← inst.nets.mapM (netWireLength o inst)
   pure (nsum ls)
 
 /-- `cost = intersection_area + wire_length / 2`. -/
-def cost (o : Ops α) (disc : Pt α → α → Pt α → α → α) {β : Type} (inst : Inst α β) : Option α := do
+def cost (o : Ops α) (disc : Pt α → α → Pt α → α → α) {β : Type} (inst : Inst α β) : Except FErr α := do
   let ia ← totalIntersectionArea o disc inst
   let wl ← wireLength o inst
   pure (ia + wl / two)
 
-/-- the loop of lines 158–173 over a list of `(kappa, cost)`: keep the first strict minimum.
-    `best_cost = inf` is `none`: the first candidate always replaces it (costs are assumed finite). -/
-def argminFirst {κ : Type} : List (κ × α) → Option (κ × α)
-  | [] => none
-  | c :: cs => some (cs.foldl (fun best x => if x.2 < best.2 then x else best) c)
+/-- the loop of lines 158–173 over a list of `(kappa, cost)`, from `best_cost = inf`, `best_kappa = 0.0` (= `none`):
+    a candidate replaces the current best when its cost is strictly smaller; against `inf` that is `ltInf cost`
+    (false for `inf` / NaN costs, which therefore never win — as in Python). -/
+def argminFrom {κ : Type} (ltInf : α → Bool) (cs : List (κ × α)) (best : Option (κ × α)) : Option (κ × α) :=
+  cs.foldl (fun best x => match best with
+    | none => if ltInf x.2 then some x else none
+    | some b => if x.2 < b.2 then some x else some b) best
 
 /-- `[i / 10 for i in range(4, 16)]`. -/
 def kappas : List α := (List.range 12).map fun i => ((i + 4 : Nat) : α) / ten
 
-/-- the spring constant selected by `force_algorithm` (`none`: a cost could not be computed). -/
-def costTable (f : α → Option α) : List α → Option (List (α × α))
-  | [] => some []
-  | kp :: ks => match f kp, costTable f ks with
-    | some c, some r => some ((kp, c) :: r)
-    | _, _ => none
+/-- the cost of the layout of every spring constant, in order (any exception aborts). -/
+def costTable (f : α → Except FErr α) : List α → Except FErr (List (α × α))
+  | [] => .ok []
+  | kp :: ks => do
+    let c ← f kp
+    let r ← costTable f ks
+    pure ((kp, c) :: r)
 
+/-- cost of the layout computed for one spring constant (the layout runs on a `deepcopy`). -/
+def costOf (o : Ops α) (disc : Pt α → α → Pt α → α → α) {β : Type} (inst : Inst α β) (maxIter : Nat) (kp : α) :
+    Except FErr α := do
+  let l ← frLayout o inst kp maxIter
+  cost o disc l
+
+/-- the spring constant selected by `force_algorithm`: `none` = `best_kappa` is still `0.0`. -/
 def bestKappa (o : Ops α) (disc : Pt α → α → Pt α → α → α) {β : Type} (inst : Inst α β)
-    (ks : List α) (maxIter : Nat) : Option (α × α) := do
-  let cs ← costTable (fun kp => cost o disc (frLayout o inst kp maxIter)) ks
-  argminFirst cs
+    (ks : List α) (maxIter : Nat) : Except FErr (Option (α × α)) := do
+  let cs ← costTable (costOf o disc inst maxIter) ks
+  pure (argminFrom o.ltInf cs none)
 
-/-- `force_algorithm(die, max_iter=maxIter)`: the layout recomputed with the best spring constant. -/
+/-- `force_algorithm(die, max_iter=maxIter)`: the layout recomputed with the best spring constant
+    (with `0.0` when no cost was below `inf`: Python then divides by zero or returns the `kappa = 0` layout). -/
 def forceAlgorithm (o : Ops α) (disc : Pt α → α → Pt α → α → α) {β : Type} (inst : Inst α β)
-    (maxIter : Nat) : Option (Inst α β) := do
+    (maxIter : Nat) : Except FErr (Inst α β) := do
   let b ← bestKappa o disc inst kappas maxIter
-  pure (frLayout o inst b.1 maxIter)
+  match b with
+  | some b => frLayout o inst b.1 maxIter
+  | none => frLayout o inst zero maxIter
 
 end FV.Force
